@@ -296,7 +296,7 @@ def next_op(rng, P, jti_ctr, rich):
     def jti(cref):
         if cref != "client_2":
             return None
-        if jti_ctr and rng.random() < 0.25:
+        if rich and jti_ctr and rng.random() < 0.25:   # (the replay cache lives in the context, not the session manager)
             return rng.choice(jti_ctr)          # replayed assertion id
         jti_ctr.append(len(jti_ctr) + 1)
         return jti_ctr[-1]
